@@ -33,6 +33,8 @@ func faultOptsFor(prop string) RunOpts {
 		return RunOpts{Prop: "C18", RefsQuiescent: true, FreeCheck: true}
 	case "C17":
 		return RunOpts{Prop: "C17"}
+	case "C09":
+		return RunOpts{Prop: "C09", Monitor: true}
 	}
 	return faultOpts
 }
@@ -78,7 +80,23 @@ func RunFault(c Case) (*Violation, map[string]int, *FaultPlan) {
 	opts := faultOptsFor(propOfProfile(c.Cfg.Profile))
 	opts.Plan = plan
 	v, ev := Run(c, opts)
+	if v != nil && opts.Prop == "C09" && !monitorSig(v.Sig) {
+		// C09's fault phase judges the write/truncate log only; what else a failing
+		// file may break is C07's business and is reported by ./check C07
+		ev["other_property_failures"]++
+		v = nil
+	}
 	return v, ev, plan
+}
+
+// monitorSig reports whether a violation signature belongs to the C09 call-log monitor.
+func monitorSig(sig string) bool {
+	switch sig {
+	case "write-on-read-path", "write-below-durable-end", "truncate-outside-revert", "truncate-size", "durable-prefix-modified",
+		"copyto-source-file-changed", "copyto-source-written", "snapshot-revert-wrote":
+		return true
+	}
+	return false
 }
 
 func init() {
